@@ -275,6 +275,9 @@ func formatVerdict(t, s string) verdict {
 
 // ---------------------------------------------------------------- positions
 
+// c01DeepPositions (thorough tier): the rule sits one level further inside a registered type.
+var c01DeepPositions = []string{"property-of-type", "item-of-type", "type-rule-in-type", "or-types-in-item", "or-rulesets-in-type"}
+
 var c01Positions = []string{"root", "property", "item", "type-shortcut", "type-rule", "or-types", "or-rulesets", "type-of-type", "or-rulesets+other-inline-or"}
 
 func ann(rules []string) string {
@@ -335,6 +338,28 @@ func place(t tv, pos string) (*project, verdict) {
 			v = accept
 		}
 		return &project{Root: t.Lit + ` // {or: [` + rs + `, {type: "boolean"}]}`}, v
+	case "property-of-type":
+		return &project{Root: "@t", Types: map[string]string{"@t": "{\n\t\"k\": " + node + "\n}"}}, self
+	case "item-of-type":
+		return &project{Root: "{\n\t\"x\": @t\n}", Types: map[string]string{"@t": "[\n\t" + node + "\n]"}}, self
+	case "type-rule-in-type":
+		return &project{Root: "@v", Types: map[string]string{"@v": "{\n\t\"k\": " + t.Lit + ` // {type: "@t"}` + "\n}", "@t": typ}}, needWitness(self)
+	case "or-types-in-item":
+		v := self
+		if litKind(t.Lit) == "boolean" {
+			v = accept
+		}
+		return &project{Root: "[\n\t" + t.Lit + ` // {or: ["@t", "@u"]}` + "\n]", Types: map[string]string{"@t": typ, "@u": "true"}}, needWitness(v)
+	case "or-rulesets-in-type":
+		rs := ruleSetFor(t)
+		if rs == "" {
+			return nil, noClaim
+		}
+		v := self
+		if litKind(t.Lit) == "boolean" {
+			v = accept
+		}
+		return &project{Root: "{\n\t\"x\": @t\n}", Types: map[string]string{"@t": "{\n\t\"k\": " + t.Lit + ` // {or: [` + rs + `, {type: "boolean"}]}` + "\n}"}}, v
 	case "or-rulesets+other-inline-or":
 		// the same, next to registered but unreferenced types that carry inline `or`
 		// alternatives of their own (separately loaded schemas must not mix them up)
@@ -352,6 +377,28 @@ func place(t tv, pos string) (*project, verdict) {
 		}}, v
 	}
 	return nil, noClaim
+}
+
+// c01Combined: t with one more rule that is independent of those it has.
+func c01Combined(t tv) []tv {
+	if len(t.Rules) == 0 || len(t.Rules) > 3 || hasRule(t.Rules, "type") || hasRule(t.Rules, "enum") || hasRule(t.Rules, "const") || hasRule(t.Rules, "nullable") {
+		return nil
+	}
+	k := litKind(t.Lit)
+	if k != litKind(t.Witness) || k == "null" {
+		return nil
+	}
+	if hasRule(t.Rules, "precision") {
+		k = "decimal"
+	}
+	var out []tv
+	with := func(rules []string, fam string) {
+		out = append(out, tv{Lit: t.Lit, Rules: rules, Witness: t.Witness, Family: t.Family + "+" + fam})
+	}
+	ty := `type: "` + k + `"`
+	with(append([]string{ty}, t.Rules...), "type-first")
+	with(append(append([]string{}, t.Rules...), ty), "type-last")
+	return out
 }
 
 func hasRule(rules []string, name string) bool {
@@ -641,9 +688,9 @@ func init() {
 	Register(&Prop{
 		ID:        "C01",
 		Technique: "bounded exhaustive enumeration of schema projects (typed value x rule template x boundary values x 8 positions), each judged by a three-valued reference semantics of the rules written from the property statement",
-		Rule:      "typed values: min/max/both x exclusivity x 11 (thorough 21) boundary numbers squared; precision x fraction digits; minLength/maxLength/ranges/regex x 7 strings; 5 string formats x clear-cut strings; explicit types x 7 literals x nullable; const; enum singletons and pairs over 11 scalars; arrays x minItems/maxItems 0..4; each typed value in the positions root, property, item, @t shortcut, type:\"@t\", or:[\"@t\",\"@u\"], or:[{rule set},{type:boolean}], type of a type; non-trivial = projects with a reference verdict",
+		Rule:      "typed values: min/max/both x exclusivity x 11 (thorough 21) boundary numbers squared; precision x fraction digits; minLength/maxLength/ranges/regex x 7 strings; 5 string formats x strings whose verdict follows from the defining RFC (URN/braced/bare-hex UUIDs and other disputed spellings are crossed without a claim); empty and one-point min/max ranges; explicit types x 7 literals x nullable; const; enum singletons and pairs over 11 scalars; arrays x minItems/maxItems 0..4; each typed value in the positions root, property, item, @t shortcut, type:\"@t\", or:[\"@t\",\"@u\"], or:[{rule set},{type:boolean}], type of a type (thorough: also one level further inside a registered type - property of a type, item of a type, type rule / or list / or rule-set inside a type - and every value rule combined with its explicit type written first or last); non-trivial = projects with a reference verdict",
 		Bounds: func(tier string) map[string]any {
-			return map[string]any{"positions": c01Positions, "boundary_numbers": map[string]int{"quick": len(c01Nums), "thorough": len(c01Nums) + 10}[tier]}
+			return map[string]any{"positions": c01Positions, "thorough_positions": c01DeepPositions, "boundary_numbers": map[string]int{"quick": len(c01Nums), "thorough": len(c01Nums) + 10}[tier]}
 		},
 		Run: func(w *core.W) {
 			var i int64
@@ -659,6 +706,22 @@ func init() {
 					p, exp := place(t, pos)
 					tt := t
 					c01Judge(w, p, exp, t.Family, pos, &tt)
+				}
+				if w.Thorough() {
+					for _, pos := range c01DeepPositions {
+						p, exp := place(t, pos)
+						tt := t
+						c01Judge(w, p, exp, t.Family, pos, &tt)
+					}
+					// the same value under the rule plus an independent second rule: its
+					// explicit type, written first or last (enum excludes the other value rules)
+					for _, c := range c01Combined(t) {
+						for _, pos := range []string{"root", "property", "type-shortcut", "or-rulesets", "type-rule"} {
+							p, exp := place(c, pos)
+							cc := c
+							c01Judge(w, p, exp, c.Family, pos, &cc)
+						}
+					}
 				}
 				if i%20011 == 1 {
 					p, _ := place(t, "type-rule")
